@@ -666,3 +666,18 @@ fn kf_xlsb_reference_tokens_render_their_dollar_flags() {
     assert_eq!(f.get_value((2, 4)), Some(&"A$1".to_string()));
     assert_eq!(f.get_value((2, 5)), Some(&"A1:B2".to_string()));
 }
+
+// C10 / R-FMT-SCAN
+
+#[test]
+fn kf_format_escape_characters_inside_quotes_are_literal() {
+    // "Date_"dd/mm/yyyy : the underscore sits inside a quoted literal, the closing quote must still close it
+    let styles = r#"<?xml version="1.0" encoding="UTF-8"?><styleSheet xmlns="http://schemas.openxmlformats.org/spreadsheetml/2006/main"><numFmts count="2"><numFmt numFmtId="164" formatCode="&quot;Date_&quot;dd/mm/yyyy"/><numFmt numFmtId="165" formatCode="&quot;C:\&quot;yyyy"/></numFmts><cellXfs count="3"><xf numFmtId="0"/><xf numFmtId="164"/><xf numFmtId="165"/></cellXfs></styleSheet>"#;
+    let sh = sheet(r#"<row r="1"><c r="A1" s="1"><v>44197</v></c><c r="B1" s="2"><v>44198</v></c></row>"#);
+    let bytes = rezip(&minimal_xlsx(&sh, None, None), &[("xl/styles.xml", styles.as_bytes().to_vec())]);
+    let mut wb: Xlsx<_> = Xlsx::new(Cursor::new(bytes)).unwrap();
+    let r = wb.worksheet_range("Sheet1").unwrap();
+    let d = |v| Data::DateTime(ExcelDateTime::new(v, ExcelDateTimeType::DateTime, false));
+    assert_eq!(r.get_value((0, 0)), Some(&d(44197.0)));
+    assert_eq!(r.get_value((0, 1)), Some(&d(44198.0)));
+}
